@@ -10,7 +10,9 @@
                             already handled every earlier message of its class,
            dec_err        = "" or the exception type raised while decoding,
            reply          = bytes of an answer built with the parms of the received packet,
-           reply_to_sender = TRUE iff that answer is addressed to the datagram's sender       *)
+           reply_to_sender = TRUE iff that answer is addressed to the datagram's sender,
+           has_sim, sim, sim_rf = what the bundled simulator queued for this datagram (normal / RF-error mode):
+                            << [verb, swapped, to_sender] ... >>                                    *)
 EXTENDS Wire, Json, IOUtils
 
 Recs == ndJsonDeserialize(IOEnv.GV_RECS)
@@ -33,6 +35,11 @@ DecOk(k, f, d) ==
     [] k = "hello_bcast" -> d.bcast
     [] OTHER -> TRUE
 
+\* the simulator's queued answers: the expected verbs in order, each addressed back to the sender with the
+\* identifier pair swapped
+SimOk(got, want) == /\ Len(got) = Len(want)
+                    /\ \A i \in 1..Len(got) : got[i].verb = want[i] /\ got[i].swapped /\ got[i].to_sender
+
 Clauses(r) ==
   LET k == r.kind  f == r.f IN
   << <<"byte-layout", r.bytes = Enc(k, f)>>,
@@ -42,7 +49,9 @@ Clauses(r) ==
      <<"decodes-without-error", (Owner(k) # {}) => (r.dec_err = "" /\ r.decoded)>>,
      <<"decodes-to-its-fields", (Owner(k) # {} /\ r.dec_err = "" /\ r.decoded) => DecOk(k, f, r.dec)>>,
      <<"decodes-same-on-a-long-lived-handler", (Framed(k) /\ Owner(k) # {} /\ r.dec_err = "" /\ r.decoded) => r.dec2 = r.dec>>,
-     <<"reply-swaps-identifiers", Framed(k) => (r.reply = ReplyFrame(f.p3, f.p2, V_PACKS) /\ r.reply_to_sender)>> >>
+     <<"reply-swaps-identifiers", Framed(k) => (r.reply = ReplyFrame(f.p3, f.p2, V_PACKS) /\ r.reply_to_sender)>>,
+     <<"simulator-answers", r.has_sim => SimOk(r.sim, SimAnswers(k, FALSE))>>,
+     <<"simulator-answers-in-rf-error-mode", r.has_sim => SimOk(r.sim_rf, SimAnswers(k, TRUE))>> >>
 
 Failing(r) == LET c == Clauses(r) IN { i \in 1..Len(c) : ~c[i][2] }
 Why(r) == LET c == Clauses(r) IN c[CHOOSE i \in Failing(r) : \A j \in Failing(r) : i <= j][1]
